@@ -47,9 +47,9 @@ Proof.
       * intros Hn Hp. contradiction.
       * rewrite Hbm. exact S7.
     + rewrite sn_lookup_set_ne in Hk by exact Hne. apply v_sns. exact Hk.
-  - intros f Hin Hn. destruct (N.eq_dec f i) as [->|Hne].
-    + rewrite (v_files i Hin Hn) in Hl. injection Hl as <-. contradiction.
-    + rewrite sn_lookup_set_ne by exact Hne. apply v_files; assumption.
+  - intros f Hin Hn. destruct (v_files f Hin Hn) as [X|X]; [|right; exact X]. destruct (N.eq_dec f i) as [->|Hne].
+    + rewrite X in Hl. injection Hl as <-. contradiction.
+    + left. rewrite sn_lookup_set_ne by exact Hne. exact X.
   - destruct (ckp s) eqn:Ec; try exact I. destruct v_ck as [K1 [K2 [K3 [K4 K5]]]].
     split; [exact K1|]. split; [exact K2|]. split; [|split; [exact K4 | exact K5]].
     intros k p Hk. destruct (N.eq_dec k i) as [->|Hne].
@@ -86,12 +86,14 @@ Proof.
   match goal with G : (i =? _) = true |- _ => apply N.eqb_eq in G; subst i end.
   exists hi. split; [pframe s|].
   unfold running in *. proj. destruct (rc s) eqn:R; try (not_running HV).
-  pose proof HV as HV0. destruct HV0 as [_ _ _ _ _ _ _ _ v_app _ v_snapi v_sns _ _ _ _].
+  pose proof HV as HV0. destruct HV0 as [_ _ _ _ _ _ _ _ v_app _ v_snapi v_sns _ _ _ _ _].
   rewrite E in v_app. destruct v_app as [A1 [A2 A3]]. subst i0.
   assert (Hfresh : forall k p, sn_lookup k (sns s) = Some p -> k < applied s).
   { intros k p Hk. destruct (v_sns k p Hk) as [_ [_ [S3 _]]]. lia. }
+  assert (Hnw : newest (segs s) <= snapi s).
+  { destruct v_snapi as [_ [X|X]]; [exact X|]. unfold snap_busy in X. rewrite E in X. contradiction. }
   vinv_split HV.
-  - lia.
+  - split; [lia | left; lia].
   - intros k p Hk. destruct (N.eq_dec k (applied s)) as [->|Hne].
     + rewrite sn_lookup_set_eq in Hk. injection Hk as <-.
       split; [lia|]. split; [exact A2|]. split; [lia|]. split; [|split; [|split]].
@@ -101,9 +103,9 @@ Proof.
       * intros Hp. discriminate.
     + rewrite sn_lookup_set_ne in Hk by exact Hne.
       destruct (v_sns k p Hk) as [S1 [S2 [S3 S4]]]. split; [exact S1|]. split; [exact S2|]. split; [lia | exact S4].
-  - intros f Hin Hn. destruct (N.eq_dec f (applied s)) as [->|Hne].
-    + specialize (v_files _ Hin Hn). apply Hfresh in v_files. lia.
-    + rewrite sn_lookup_set_ne by exact Hne. apply v_files; assumption.
+  - intros f Hin Hn. destruct (v_files f Hin Hn) as [X|X]; [|right; exact X]. destruct (N.eq_dec f (applied s)) as [->|Hne].
+    + apply Hfresh in X. lia.
+    + left. rewrite sn_lookup_set_ne by exact Hne. exact X.
   - destruct (ckp s) eqn:Ec; try exact I. destruct v_ck as [K1 [K2 [K3 [K4 K5]]]].
     specialize (K5 _ E). subst i.
     split; [exact K1|]. split; [exact K2|]. split; [|split; [exact K4 | intros; discriminate]].
@@ -115,10 +117,10 @@ Qed.
 Lemma step_sn_file : forall c s s' i, Inv c s -> step c s (EvSnFile i) = Ok s' -> Inv c s'.
 Proof.
   intros c s s' i [hi [HP HV]] H. unfold step in H.
-  destruct (memN i (unvalidated (all_recs (segs s)))); [discriminate|].
+  destruct (memN i (unvalidated (all_recs (segs s)))) eqn:Hst; [discriminate|].
   apply sn_step_inv in H. destruct H as [Hl ->].
   unfold running in *. proj. destruct (rc s) eqn:R; try (destruct HV as [_ [_ [_ [Hs _]]]]; rewrite Hs in Hl; discriminate).
-  pose proof HV as HV0. destruct HV0 as [_ _ _ _ _ _ _ _ _ _ _ v_sns _ _ _ _].
+  pose proof HV as HV0. destruct HV0 as [_ _ _ _ _ _ _ _ _ _ _ v_sns _ _ _ _ _].
   destruct (v_sns i _ Hl) as [S1 [S2 [S3 [S4 [S5 [S6 S7]]]]]].
   exists hi. split.
   - apply (pinv_files s); try reflexivity; auto; proj.
@@ -126,10 +128,11 @@ Proof.
       destruct (N.eq_dec (newest (segs s)) i) as [->|Hne]; [left; reflexivity | right; apply removeN_In; split; auto].
     + intros [Hz|Hz]; [lia|]. apply removeN_In in Hz. destruct Hz as [Hz _]. exact (p_nozero _ _ HP Hz).
     + apply cons_removeN_NoDup. exact (p_nodup _ _ HP).
-    + intros f [<-|Hin]; [destruct (v_done _ _ _ HV); lia|]. apply removeN_In in Hin. destruct Hin as [Hin _]. exact (p_files_le _ _ HP f Hin).
+    + intros f [<-|Hin]; [left; destruct (v_done _ _ _ HV); lia|]. apply removeN_In in Hin. destruct Hin as [Hin _]. exact (p_files_le _ _ HP f Hin).
     + exact (p_ckpts _ _ HP).
   - unfold running. proj. rewrite R.
     vinv_split HV.
+    + apply (rd_inv_files s); auto. proj. intros j Hj Ej Hin. destruct (N.eq_dec j i) as [->|Hne]; [left; reflexivity | right; apply removeN_In; split; auto].
     + intros k p Hk. destruct (N.eq_dec k i) as [->|Hne].
       * rewrite sn_lookup_set_eq in Hk. injection Hk as <-.
         split; [exact S1|]. split; [exact S2|]. split; [exact S3|]. split; [exact S4|]. split; [|split].
@@ -140,8 +143,11 @@ Proof.
         destruct (v_sns k p Hk) as [T1 [T2 [T3 [T4 [T5 [T6 T7]]]]]].
         repeat split; auto. intros Hn Hp. right. apply removeN_In. split; auto.
     + intros f [<-|Hin] Hn.
-      * apply sn_lookup_set_eq.
+      * left. apply sn_lookup_set_eq.
       * apply removeN_In in Hin. destruct Hin as [Hin Hne]. rewrite sn_lookup_set_ne by exact Hne. apply v_files; assumption.
+    + intros u Hu. destruct (v_unval u Hu) as [X|[X|X]]; auto. right. left. intros [<-|Hin].
+      * assert (Hm : memN i (unvalidated (all_recs (segs s))) = true) by (apply memN_In; exact Hu). congruence.
+      * apply removeN_In in Hin. tauto.
     + destruct (ckp s) eqn:Ec; try exact I. destruct v_ck as [K1 [K2 [K3 [K4 K5]]]].
       split; [exact K1|]. split; [exact K2|]. split; [|split; [exact K4 | exact K5]].
       intros k p Hk. destruct (N.eq_dec k i) as [->|Hne].
@@ -151,11 +157,44 @@ Proof.
 Qed.
 
 Lemma marker_markers : forall ss i, ss <> [] ->
-  markers (all_recs (app_tail ss [RSnap i])) = markers (all_recs ss) ++ [i].
-Proof. intros. rewrite app_tail_recs by auto. rewrite markers_app. reflexivity. Qed.
+  pmarkers (all_recs (app_tail ss [RSnap i])) = pmarkers (all_recs ss) ++ [i].
+Proof. intros. rewrite app_tail_recs by auto. rewrite pmarkers_app. reflexivity. Qed.
+
+Lemma marker_unvalidated : forall ss i, ss <> [] ->
+  unvalidated (all_recs (app_tail ss [RSnap i])) = unvalidated (all_recs ss).
+Proof. intros. rewrite app_tail_recs by auto. rewrite unvalidated_app. simpl. rewrite app_nil_r. reflexivity. Qed.
 
 Lemma marker_lc : forall ss i, ss <> [] -> last_commit (all_recs (app_tail ss [RSnap i])) = last_commit (all_recs ss).
 Proof. intros. rewrite app_tail_recs by auto. apply last_commit_nostate. reflexivity. Qed.
+
+(* the raft loop's clause when a local snapshot's marker is appended to the WAL (and the WAL is flushed) *)
+Lemma rd_inv_marker : forall s s' hi i,
+  segs s <> [] -> rd_inv s hi -> segs s' = app_tail (segs s) [RSnap i] -> unflushed s' = 0%nat ->
+  rdp s' = rdp s -> rs_last s' = rs_last s -> published s' = published s -> wstate s' = wstate s -> hcommit s' = hcommit s ->
+  proposed s' = proposed s -> ckpts s' = ckpts s -> snapfiles s' = snapfiles s -> app s' = app s -> rd_inv s' hi.
+Proof.
+  intros s s' hi i Hne H Es Eu E3 E4 E5 E6 E7 E8 E10 E11 Eap.
+  assert (H1 : last_commit (all_recs (segs s')) = last_commit (all_recs (segs s))) by (rewrite Es; apply marker_lc; auto).
+  assert (H2 : forall i0, lc_all_lt s i0 -> lc_all_lt s' i0).
+  { intros i0 L j Hj. rewrite Eu in Hj. assert (j = 0%nat) by lia. subst j. rewrite drop_tail_0, H1.
+    specialize (L 0%nat ltac:(lia)). rewrite drop_tail_0 in L. exact L. }
+  assert (H3 : flushed_state s -> flushed_state s').
+  { intros F j Hj. rewrite Eu in Hj. assert (j = 0%nat) by lia. subst j. rewrite drop_tail_0, Es, app_tail_recs by auto.
+    apply has_state_app_l. specialize (F 0%nat ltac:(lia)). rewrite drop_tail_0 in F. exact F. }
+  assert (H4 : forall i0, snap_tail s hi i0 -> snap_tail s' hi i0).
+  { intros i0 T. eapply (snap_tail_app s s'); eauto. }
+  assert (H5 : forall i0 : N, (forall j, (0 < j <= unflushed s')%nat -> last_commit (all_recs (drop_tail (segs s') j)) < i0)).
+  { intros i0 j Hj. rewrite Eu in Hj. lia. }
+  unfold rd_inv, window, snapfacts, ckpt_ok, pubcl, rlast in *.
+  rewrite E3, E4, E5, E6, E7, E8, E10, E11, H1, Eap.
+  destruct (rdp s) as [|r sv pb|r pb apd|r pb idx|r|r fl|r|r k]; auto.
+  - destruct (0 <? r_snap r); destruct sv; intuition.
+  - destruct (0 <? r_snap r); destruct apd; intuition.
+  - destruct (0 <? r_snap r); intuition.
+  - intuition.
+  - intuition.
+  - destruct H as [A [B [C [D E]]]]. repeat split; auto. rewrite Es, newest_app_tail_marker by auto. lia.
+Qed.
 
 Lemma step_sn_marked : forall c s s' i, Inv c s -> step c s (EvSnMarked i) = Ok s' -> Inv c s'.
 Proof.
@@ -163,7 +202,7 @@ Proof.
   apply sn_step_inv in H. destruct H as [Hl ->].
   unfold running in *. proj. destruct (rc s) eqn:R; try (destruct HV as [_ [_ [_ [Hs _]]]]; rewrite Hs in Hl; discriminate).
   pose proof (pinv_segs_nonempty _ _ HP) as Hne.
-  pose proof HV as HV0. destruct HV0 as [_ _ _ _ _ v_done _ _ _ _ _ v_sns _ _ _ _].
+  pose proof HV as HV0. destruct HV0 as [_ _ _ _ _ v_done _ _ _ _ _ v_sns _ _ _ _ _].
   destruct (v_sns i _ Hl) as [S1 [S2 [S3 [S4 [S5 [S6 S7]]]]]].
   destruct v_done as [D1 [D2 D3]].
   exists hi. split.
@@ -171,14 +210,23 @@ Proof.
     intros Hn. split; [apply S6; auto | apply S5; auto; discriminate].
   - unfold running. proj. rewrite R.
     assert (Hnw : newest (app_tail (segs s) [RSnap i]) = N.max (newest (segs s)) i) by (apply newest_app_tail_marker; auto).
-    vinv_split HV; rewrite ?Hnw, ?marker_lc, ?app_tail_length, ?nth_sfirst_app_tail by auto; try assumption.
+    assert (Hnb : newest (segs s) <= snapi s \/ snap_busy s) by (destruct (v_snapi _ _ _ HV); assumption).
+    assert (Hsa : snapi s <= applied s) by (destruct (v_snapi _ _ _ HV); assumption).
+    pose proof (vinv_app_inv _ _ _ HV) as Hai.
+    match goal with |- VInv c ?st _ => set (s1 := st) end.
+    assert (Hai' : app_inv s1 hi).
+    { apply (app_inv_marker s s1 hi i); auto; try (unfold s1; proj; reflexivity); try lia.
+      all: try (unfold pend_idx, pending, s1; proj; reflexivity).
+      all: try (unfold s1; proj; exact Hnw). }
+    unfold app_inv, snap_pend, snap_done in Hai'.
+    replace (pend_idx s1) with (pend_idx s) in Hai' by (unfold pend_idx, pending, s1; proj; reflexivity).
+    unfold s1 in *. clear s1. proj. rewrite Hnw in Hai'.
+    vinv_split HV; rewrite ?Hnw, ?marker_lc, ?marker_unvalidated, ?app_tail_length, ?nth_sfirst_app_tail by auto; try assumption.
     + (* raft loop: only the unflushed counter and the WAL view changed *)
-      unfold rd_inv, pubcl in *. proj. rewrite marker_lc by auto. unfold rlast in *. proj.
-      destruct (rdp s); try assumption.
-      destruct v_rd as [F [Sx [Hidx [Huf Rest]]]]. split; [exact F|]. split; [exact Sx|]. split; [exact Hidx|]. split; [reflexivity | exact Rest].
+      apply (rd_inv_marker s _ hi i); auto.
     + destruct v_nrel as [N1 N2]. split; [exact N1 | lia].
-    + destruct v_latest as [L1 L2]. split; [lia|]. intros lat Hlat. specialize (L2 lat Hlat). lia.
-    + lia.
+    + destruct v_latest as [L1 L2]. split; [destruct L1 as [L1|L1]; [left; lia | right; exact L1]|]. intros lat Hlat. specialize (L2 lat Hlat). lia.
+    + destruct v_snapi as [A B]. split; [exact A|]. destruct B as [B|B]; [left; lia | right; exact B].
     + intros k p Hk. rewrite marker_markers by auto. destruct (N.eq_dec k i) as [->|Hnk].
       * rewrite sn_lookup_set_eq in Hk. injection Hk as <-.
         split; [exact S1|]. split; [exact S2|]. split; [exact S3|]. split; [intros; discriminate|].
@@ -191,12 +239,13 @@ Proof.
         -- intros Hn Hp. apply T6; [lia | exact Hp].
         -- intros Hb. specialize (T7 Hb). lia.
     + intros f Hin Hn. destruct (N.eq_dec f i) as [->|Hnf]; [lia|].
-      rewrite sn_lookup_set_ne by exact Hnf. apply v_files; [exact Hin | lia].
+      destruct (v_files f Hin ltac:(lia)) as [X|X]; [left; rewrite sn_lookup_set_ne by exact Hnf; exact X | right; exact X].
     + intros f Hf. specialize (v_pgsnap f Hf). lia.
-    + destruct (ckp s) eqn:Ec; try exact I. destruct v_ck as [K1 [K2 [K3 [K4 K5]]]].
+    + intros u Hu. destruct (v_unval u Hu) as [X|[X|X]]; auto. left. lia.
+    + destruct (ckp s) eqn:Ec; try exact I. destruct v_ck as [K1 [[K2 K2'] [K3 [K4 K5]]]].
       destruct (K3 i _ Hl) as [A B].
       assert (i <> i0) by (intros ->; specialize (B eq_refl); discriminate).
-      split; [exact K1|]. split; [lia|]. split; [|split; [exact K4 | exact K5]].
+      split; [exact K1|]. split; [split; [lia | exact K2']|]. split; [|split; [exact K4 | exact K5]].
       intros k p Hk. destruct (N.eq_dec k i) as [->|Hnk].
       * rewrite sn_lookup_set_eq in Hk. injection Hk as <-. split; [exact A | intros; contradiction].
       * rewrite sn_lookup_set_ne in Hk by exact Hnk. apply K3. exact Hk.
@@ -254,7 +303,7 @@ Proof.
   exists hi. split; [pframe s|].
   unfold running. proj. rewrite R.
   assert (HV' : VInv c (set_nrel s (release_to (segs s) (nrel s) i)) hi).
-  { pose proof HV as HV0. destruct HV0 as [_ _ v_nrel _ _ _ _ _ _ _ _ v_sns _ _ _ _].
+  { pose proof HV as HV0. destruct HV0 as [_ _ v_nrel _ _ _ _ _ _ _ _ v_sns _ _ _ _ _].
     destruct (v_sns i _ Hl) as [_ [_ [_ [_ [_ [_ S7]]]]]]. specialize (S7 eq_refl).
     destruct v_nrel as [N1 N2]. destruct (release_to_spec (segs s) (nrel s) i N1) as [A [B|B]].
     - rewrite B. vinv_split HV.
@@ -270,9 +319,9 @@ Proof.
   exists hi. split; [pframe s|].
   unfold running. proj. rewrite R.
   assert (HV' : VInv c (set_latest s i) hi).
-  { pose proof HV as HV0. destruct HV0 as [_ _ _ _ _ _ _ _ _ _ _ v_sns _ _ _ _].
+  { pose proof HV as HV0. destruct HV0 as [_ _ _ _ _ _ _ _ _ _ _ v_sns _ _ _ _ _].
     destruct (v_sns i _ Hl) as [_ [_ [_ [_ [_ [_ S7]]]]]]. specialize (S7 eq_refl).
-    vinv_split HV. destruct v_latest as [L1 L2]. split; [exact S7 | exact L2]. }
+    vinv_split HV. destruct v_latest as [L1 L2]. split; [left; exact S7 | exact L2]. }
   apply (vinv_sn_pc c _ hi i SnReleased SnUpdated HV'); auto; try discriminate.
 Qed.
 
@@ -285,9 +334,9 @@ Proof.
   - intros k p Hk. destruct (N.eq_dec k i) as [->|Hne].
     + rewrite sn_lookup_remove_eq in Hk. discriminate.
     + rewrite sn_lookup_remove_ne in Hk by exact Hne. apply v_sns. exact Hk.
-  - intros f Hin Hn. destruct (N.eq_dec f i) as [->|Hne].
-    + specialize (v_files i Hin Hn). congruence.
-    + rewrite sn_lookup_remove_ne by exact Hne. apply v_files; assumption.
+  - intros f Hin Hn. destruct (v_files f Hin Hn) as [X|X]; [|right; exact X]. destruct (N.eq_dec f i) as [->|Hne].
+    + congruence.
+    + left. rewrite sn_lookup_remove_ne by exact Hne. exact X.
   - destruct (ckp s) eqn:Ec; try exact I. destruct v_ck as [K1 [K2 [K3 [K4 K5]]]].
     split; [exact K1|]. split; [exact K2|]. split; [|split; [exact K4 | exact K5]].
     intros k p Hk. destruct (N.eq_dec k i) as [->|Hne].
@@ -336,6 +385,23 @@ Proof.
   - simpl. f_equal. apply IH; auto. destruct Hin as [->|Hin]; [rewrite N.eqb_refl in E; discriminate | exact Hin].
 Qed.
 
+(* the same with the file of an incoming snapshot whose record is not valid yet *)
+Lemma count_window_files2 : forall (l : list N) sns0 p (w : nat),
+  NoDup l -> (forall f, In f l -> sn_lookup f sns0 = Some SnFile \/ (f = p /\ w = 1%nat)) -> (length l <= win_count sns0 + w)%nat.
+Proof.
+  intros l sns0 p w Hnd Hall.
+  destruct (in_dec N.eq_dec p l) as [Hin|Hnin].
+  - destruct (Hall p Hin) as [X|[_ X]].
+    + assert (length l <= win_count sns0)%nat; [|lia]. apply count_window_files; auto.
+      intros f Hf. destruct (Hall f Hf) as [Y|[Y _]]; [exact Y | subst f; exact X].
+    + subst w. pose proof (removeN_length p l Hnd Hin) as Hl.
+      assert (length (removeN p l) <= win_count sns0)%nat; [|lia].
+      apply count_window_files; [apply removeN_NoDup; exact Hnd|].
+      intros f Hf. apply removeN_In in Hf. destruct Hf as [Hf Hne]. destruct (Hall f Hf) as [Y|[Y _]]; [exact Y | congruence].
+  - assert (length l <= win_count sns0)%nat; [|lia]. apply count_window_files; auto.
+    intros f Hf. destruct (Hall f Hf) as [Y|[Y _]]; [exact Y | subst f; contradiction].
+Qed.
+
 Lemma step_pg_before : forall c s s' k, Inv c s -> (k = 4 -> window_ok c s) -> step c s (EvPgBefore k) = Ok s' -> Inv c s'.
 Proof.
   intros c s s' k HI SW0 H. start_step H hi HP HV; norm_guards.
@@ -356,8 +422,8 @@ Proof.
     { destruct (N.lt_ge_cases mn (newest (segs s))) as [L|L]; [exact L|exfalso].
       destruct HV.
       (* every other file is newer than the newest marker, hence belongs to a goroutine in the window *)
-      assert (Hcnt : (length (removeN mn (snapfiles s)) <= win_count (sns s))%nat).
-      { apply count_window_files.
+      assert (Hcnt : (length (removeN mn (snapfiles s)) <= win_count (sns s) + in_window s)%nat).
+      { apply (count_window_files2 _ _ (pend_idx s)).
         - apply removeN_NoDup. exact (p_nodup _ _ HP).
         - intros f Hf. apply removeN_In in Hf. destruct Hf as [Hf Hne]. apply v_files; [exact Hf|].
           specialize (Mle f Hf). lia. }
@@ -376,13 +442,15 @@ Qed.
 
 Lemma tl_views : forall s hi x y t, PInv s hi -> segs s = x :: y :: t ->
   last_commit (all_recs (y :: t)) = last_commit (all_recs (x :: y :: t))
-  /\ (forall i, In i (markers (all_recs (y :: t))) -> In i (markers (all_recs (x :: y :: t)))).
+  /\ (forall i, In i (pmarkers (all_recs (y :: t))) -> In i (pmarkers (all_recs (x :: y :: t))))
+  /\ (forall i, In i (unvalidated (all_recs (y :: t))) -> In i (unvalidated (all_recs (x :: y :: t)))).
 Proof.
-  intros s hi x y t P E. split.
+  intros s hi x y t P E. split; [|split].
   - rewrite (all_recs_cons x). symmetry. apply last_commit_suffix.
     destruct (p_heads _ _ P [x] y t ltac:(rewrite E; reflexivity) ltac:(congruence)) as [c0 [rest Er]].
     rewrite all_recs_cons, Er. reflexivity.
-  - intros i Hi. rewrite (all_recs_cons x), markers_app. apply in_or_app. right. exact Hi.
+  - intros i Hi. rewrite (all_recs_cons x), pmarkers_app. apply in_or_app. right. exact Hi.
+  - intros i Hi. rewrite (all_recs_cons x), unvalidated_app. apply in_or_app. right. exact Hi.
 Qed.
 
 Lemma step_pg_after : forall c s s' k, Inv c s -> step c s (EvPgAfter k) = Ok s' -> Inv c s'.
@@ -390,7 +458,7 @@ Proof.
   intros c s s' k HI H. start_step H hi HP HV; norm_guards.
   - (* wal: the oldest segment goes *)
     unfold running in *. proj. destruct (rc s) eqn:R; try (not_running HV).
-    pose proof HV as HV0. destruct HV0 as [_ _ v_nrel _ _ _ _ _ _ _ _ _ _ _ v_pgwal _].
+    pose proof HV as HV0. destruct HV0 as [_ _ v_nrel _ _ _ _ _ _ _ _ _ _ _ _ v_pgwal _].
     destruct v_pgwal as [v_pgwal Prs]. match goal with G : pg_wal s = true |- _ => specialize (v_pgwal G) end.
     destruct v_nrel as [N1 N2].
     assert (Hex : exists x y t, segs s = x :: y :: t).
@@ -403,20 +471,31 @@ Proof.
       change (nth (S n') (x :: y :: t) (mkSeg 0 [])) with (nth n' (y :: t) (mkSeg 0 [])) in N2.
       pose proof (chain_second_le x y t _ hi n' C ltac:(simpl; lia)). rewrite Ess. lia. }
     destruct (pinv_purge_wal s (set_pg_wal (set_nrel (set_segs s (y :: t)) (Nat.pred (nrel s))) false) hi x y t HP Ess) as [HP' Hnw]; try reflexivity; auto.
-    destruct (tl_views s hi x y t HP Ess) as [Hlc Hmk].
+    destruct (tl_views s hi x y t HP Ess) as [Hlc [Hmk Hun]].
     exists hi. split; [exact HP'|].
     unfold running. proj. rewrite R. cbn [segs set_pg_wal set_nrel set_segs] in Hnw. rewrite <- Ess in Hlc.
-    assert (Hmk' : forall i, In i (markers (all_recs (y :: t))) -> In i (markers (all_recs (segs s)))) by (rewrite Ess; exact Hmk).
+    assert (Hmk' : forall i, In i (pmarkers (all_recs (y :: t))) -> In i (pmarkers (all_recs (segs s)))) by (rewrite Ess; exact Hmk).
+    assert (Hun' : forall i, In i (unvalidated (all_recs (y :: t))) -> In i (unvalidated (all_recs (segs s)))) by (rewrite Ess; exact Hun).
+    pose proof (vinv_app_inv _ _ _ HV) as Hai.
+    match goal with |- VInv c ?st _ => set (s1 := st) end.
+    assert (Hai' : app_inv s1 hi).
+    { apply (app_inv_marker s s1 hi 0); auto; try (unfold s1; proj; reflexivity); try lia.
+      all: try (unfold pend_idx, pending, s1; proj; reflexivity).
+      unfold s1. proj. rewrite Hnw. lia. }
+    unfold app_inv, snap_pend, snap_done in Hai'.
+    replace (pend_idx s1) with (pend_idx s) in Hai' by (unfold pend_idx, pending, s1; proj; reflexivity).
+    unfold s1 in *. clear s1. proj. rewrite ?Hnw in Hai'.
     vinv_split HV; proj; rewrite ?Hlc, ?Hnw; try assumption.
-    + unfold rd_inv, pubcl in *. proj. rewrite Hlc. exact v_rd.
+    + apply (rd_inv_purge_wal s _ hi x y t); auto.
     + rewrite Ess in N1. rewrite Ess in N2 at 1. destruct (nrel s) as [|n'] eqn:En; [lia|]. simpl in N1. split; [simpl; lia|].
       change (nth (S n') (x :: y :: t) (mkSeg 0 [])) with (nth n' (y :: t) (mkSeg 0 [])) in N2. exact N2.
     + intros i p Hl. destruct (v_sns i p Hl) as [S1 [S2 [S3 [S4 [S5 [S6 S7]]]]]].
       repeat split; auto. intros Hb Hin. apply (S4 Hb). apply Hmk'. exact Hin.
+    + intros u Hu. apply v_unval. apply Hun'. exact Hu.
     + split; [intros; discriminate | exact Prs].
   - (* snap: the file chosen at "before" goes *)
     unfold running in *. proj. destruct (rc s) eqn:R; try (not_running HV).
-    pose proof HV as HV0. destruct HV0 as [_ _ _ _ _ _ _ _ _ _ _ _ _ v_pgsnap _ _].
+    pose proof HV as HV0. destruct HV0 as [_ _ _ _ _ _ _ _ _ _ _ _ _ v_pgsnap _ _ _].
     match goal with G : pg_snap s = Some ?m |- _ => specialize (v_pgsnap _ G); rename m into mn end.
     exists hi. split.
     + apply (pinv_files s); try reflexivity; auto; proj.
@@ -425,9 +504,12 @@ Proof.
       * apply removeN_NoDup. exact (p_nodup _ _ HP).
       * intros f Hin. apply removeN_In in Hin. destruct Hin as [Hin _]. exact (p_files_le _ _ HP f Hin).
       * exact (p_ckpts _ _ HP).
-    + unfold running. proj. rewrite R. vinv_split HV.
+    + unfold running. proj. rewrite R. pose proof (pinv_newest_le_hi _ _ HP) as Hnh. vinv_split HV.
+      * apply (rd_inv_files s); auto. proj. intros j Hj Ej Hin. apply removeN_In. split; [exact Hin|].
+        pose proof (pend_above _ _ v_rd ltac:(lia)). lia.
       * intros i p Hl. destruct (v_sns i p Hl) as [S1 [S2 [S3 [S4 [S5 [S6 S7]]]]]].
         repeat split; auto. intros Hn Hp. apply removeN_In. split; [auto | lia].
       * intros f Hin Hn. apply removeN_In in Hin. destruct Hin as [Hin _]. apply v_files; assumption.
       * intros; discriminate.
+      * intros u Hu. destruct (v_unval u Hu) as [X|[X|X]]; auto. right. left. intros Hin. apply removeN_In in Hin. tauto.
 Qed.
